@@ -700,7 +700,7 @@ func c05r8(c *Ctx, id string) {
 	for _, cl := range clears {
 		hc := heldMutexes(w, cl.in, 3)
 		for _, mk := range marks {
-			key := "clear=" + fname(cl.fn) + "|mark=" + fname(mk.fn)
+			key := "clear=" + siteRole(w, cl.fn) + "|mark=" + siteRole(w, mk.fn)
 			if done[key] {
 				continue
 			}
@@ -763,4 +763,40 @@ func marshalTotal(t types.Type, depth int) bool {
 		return marshalTotal(u.Elem(), depth+1)
 	}
 	return false
+}
+
+// siteRole names a function by the role it plays (stable under renames of unexported helpers):
+// the implementation of an interface method, the position writer, the acknowledgement closure.
+func siteRole(w *World, fn *ssa.Function) string {
+	for _, pw := range w.positionWriterFuncs() {
+		if fn == pw {
+			return "position-writer"
+		}
+	}
+	if fn.Parent() != nil {
+		ack := w.listenerContextField("Ack")
+		isAck := false
+		allInstrs(fn.Parent(), func(in ssa.Instruction) {
+			if mc, ok := in.(*ssa.MakeClosure); ok && mc.Fn == fn {
+				for _, r := range *mc.Referrers() {
+					if st, ok := r.(*ssa.Store); ok && fieldOfAddr(st.Addr) == ack {
+						isAck = true
+					}
+				}
+			}
+		})
+		if isAck {
+			return "ack-closure"
+		}
+	}
+	if fn.Signature.Recv() != nil && fn.Parent() == nil {
+		for _, iface := range []string{"Stream", "Checkpoint"} {
+			for _, impl := range w.implsOf("stream", iface, fn.Name()) {
+				if impl == fn {
+					return iface + "." + fn.Name()
+				}
+			}
+		}
+	}
+	return fname(fn)
 }
